@@ -130,6 +130,46 @@ def generate(rng, n, tier="quick"):
                {"op": "render", "reg": 0, "api": "render_template", "src": L + "{{> %s}}" % pname + R, "data": _enc0({})}]
         c = {"kind": "session", "regs": [{"escape": "none"}], "ops": ops, "id": "%s-thm%05d" % (ID, k)}
         out.append((c, {"oracle": ["must", L + P + R]}))
+    # the family of C09.partial_applies_template_to_current_context: the partial's text is the value tag {{x}} (any identifier): the
+    # call renders escape(text of data.x) where the tag stood – what L ++ {{x}} ++ R renders (closed form, exact)
+    from .C02 import ident_name
+    from .common import escape_of as _esc_of
+    for k in range(60 if tier == "quick" else 2000):
+        r = tr.fork("v%d" % k)
+        L = _no_open(rand_text(r, r.range(0, 8)))
+        while L and (L[-1] in " \t" or L.endswith("\\") or L.endswith("{")):
+            L = L[:-1]
+        R = _no_open(rand_text(r, r.range(0, 8)))
+        lt = L.rstrip(" \t")
+        rt = R.lstrip(" \t")
+        if not ((lt != "" and lt[-1] not in "\n\r") or (rt != "" and rt[0] not in "\n\r")):
+            L = L + "x"
+        x = ident_name(r)
+        if x == "other":
+            x = "k"
+        val, txt = r.pick([("<b>&\"'`=", "<b>&\"'`="), ("plain", "plain"), ("", ""), (7, "7"), (-3, "-3"), (True, "true"), (False, "false"), (None, ""),
+                           ("a\nb", "a\nb"), ("\u00e9\u4e2d", "\u00e9\u4e2d")])
+        escn = r.pick(["none", "mark", "html"])
+        pname = r.pick(["p", "dir/name.hbs", "\u00e9-1", "a.b", "x_y", "0"])
+        ops = [{"op": "reg_string", "reg": 0, "name": pname, "src": "{{%s}}" % x},
+               {"op": "render", "reg": 0, "api": "render_template", "src": L + "{{> %s}}" % pname + R, "data": _enc0({x: val, "other": "o"})}]
+        c = {"kind": "session", "regs": [{"escape": escn}], "ops": ops, "id": "%s-thmv%05d" % (ID, k)}
+        out.append((c, {"oracle": ["must", L + _esc_of(escn)(txt) + R]}))
+    # the family of C09.partial_in_with_sees_the_with_context: L ++ {{#with v}}{{> p}}{{/with}} ++ R, p = {{x}}: inside the block the
+    # partial is applied to data.v (not to the root, which has its own x): escape(text of data.v.x) (closed form, exact)
+    from .C03 import thm_left as _tl, thm_right as _trt
+    for k in range(50 if tier == "quick" else 1500):
+        r = tr.fork("w%d" % k)
+        L, R = _tl(r), _trt(r)
+        x = ident_name(r)
+        if x in ("v", "zz"):
+            x = "k"
+        val, txt = r.pick([("<b>&\"'`=", "<b>&\"'`="), ("inner", "inner"), ("", ""), (7, "7"), (True, "true"), (False, "false"), (None, ""), ("a\nb", "a\nb")])
+        escn = r.pick(["none", "mark", "html"])
+        ops = [{"op": "reg_string", "reg": 0, "name": "p", "src": "{{%s}}" % x},
+               {"op": "render", "reg": 0, "api": "render_template", "src": L + "{{#with v}}{{> p}}{{/with}}" + R, "data": _enc0({"v": {x: val, "zz": 1}, x: "ROOT"})}]
+        c = {"kind": "session", "regs": [{"escape": escn}], "ops": ops, "id": "%s-thmw%05d" % (ID, k)}
+        out.append((c, {"oracle": ["must", L + _esc_of(escn)(txt) + R]}))
     # directed: self inclusion, inline precedence, dynamic name
     def directed(idn, templates, data, expect):
         c = session({"escape": "none"}, templates, {"api": "render", "name": "main"}, data)
